@@ -36,7 +36,7 @@ def renderOut : Out → String
   | .addp r => joinWith " " ((sortBy (·.1) r).map (fun e => s!"{e.1}:{e.2}"))
   | .prod c b l => s!"{c} {b} {l}"
   | .ok => "ok"
-  | .fetch e sid ps => (s!"{e} {sid} " ++ joinWith " " ((sortBy (·.p) ps).map renderPResp)).trimAscii.toString
+  | .fetch el e sid ps => (s!"{el} {e} {sid} " ++ joinWith " " ((sortBy (·.p) ps).map renderPResp)).trimAscii.toString
 
 def renderBounds (s : State) : String :=
   joinWith " " (s.parts.map (fun pd => s!"{pd.logStart}/{pd.lso}/{pd.hwm}"))
@@ -99,19 +99,26 @@ def parseOp (ts : List String) : Option Op :=
   | ["end", c, k, e, cm] => do some (.endt (c == "n") (← k.toInt?) (← e.toInt?) (cm == "1"))
   | ["del", p, o] => do some (.del (← p.toNat?) (← o.toInt?))
   | ["sleep", ms] => do some (.sleep (← ms.toInt?))
+  | ["move", p, b] => do some (.move (← p.toNat?) (← b.toNat?))
+  | ["via", b] => do some (.via (← b.toNat?))
   | ["fetch", c, iso, mb, sid, se, ps, fg] =>
     do some (.fetch ⟨c == "n", iso == "1", ← mb.toInt?, ← sid.toInt?, ← se.toInt?, ← parseFReqs ps,
-                     ← allSome ((parseList fg ',').map parseNat?)⟩ [])
+                     ← allSome ((parseList fg ',').map parseNat?), 0, 0⟩ [])
+  | ["fetch", c, iso, mb, sid, se, ps, fg, minb, wait] =>
+    do some (.fetch ⟨c == "n", iso == "1", ← mb.toInt?, ← sid.toInt?, ← se.toInt?, ← parseFReqs ps,
+                     ← allSome ((parseList fg ',').map parseNat?), ← minb.toInt?, ← wait.toInt?⟩ [])
   | _ => none
 
 def parseOut (op : Op) (ts : List String) : Option Out :=
   match op, ts with
   | .sleep _, ["ok"] => some .ok
+  | .move .., ["ok"] => some .ok
+  | .via _, ["ok"] => some .ok
   | .addp .., ts => (allSome (ts.map (fun t => match t.splitOn ":" with
       | [p, c] => match p.toNat?, c.toInt? with | some p, some c => some (p, c) | _, _ => none
       | _ => none))).map Out.addp
   | .prod .., [c, b, l] => do some (.prod (← c.toInt?) (← b.toInt?) (← l.toInt?))
-  | .fetch .., e :: sid :: ps => do some (.fetch (← e.toInt?) (← sid.toInt?) (← allSome (ps.map parsePResp)))
+  | .fetch .., el :: e :: sid :: ps => do some (.fetch (← el.toInt?) (← e.toInt?) (← sid.toInt?) (← allSome (ps.map parsePResp)))
   | .initx .., [c, v] => do some (.codeVal (← c.toInt?) (← v.toInt?))
   | .initr .., [c, v] => do some (.codeVal (← c.toInt?) (← v.toInt?))
   | .endt .., [c, v] => do some (.codeVal (← c.toInt?) (← v.toInt?))
@@ -137,6 +144,9 @@ def step (st : St) (line : String) : St × String :=
   | ["reset", n] =>
     let np := n.toNat?.getD 1
     ({ m := Model.C32.init np, sp := sinit np, np := np }, "ok | - | 0")
+  | ["reset", n, b] =>
+    let np := n.toNat?.getD 1
+    ({ m := Model.C32.init np (b.toNat?.getD 1), sp := sinit np, np := np }, "ok | - | 0")
   | ts =>
     match parseOp ts with
     | none => (st, "bad-op | - | 0")
